@@ -1,30 +1,24 @@
 /-
-  Lemmas.WFSet — reply well-formedness of the set handlers. The member-listing reply builder
-  `setArrReply` answers the bare `*0` (no CR LF) for an empty result, and SRANDMEMBER / SPOP answer the same
-  bytes for count 0: those handlers get `handleX_wf_partial` with exception class `Star0`.
+  Lemmas.WFSet — reply well-formedness of the set handlers (all full). The member-listing reply builder
+  `setArrReply` is `*n\r\n` followed by the members as bulk strings in map order, for every `n` including 0
+  (the unterminated `*0` of the empty listing was repaired upstream; the exception class `Star0` is gone).
 -/
 import SugarModel.Lemmas.WFCore
 namespace Sugar
 
-/-- exception class: the truncated empty array `*0` -/
-def Star0 (r : Res) : Prop := r = .ok (b "*0")
-
-theorem rx_star0 : (Prog.ret (Res.ok (b "*0"))).AllRet (Res.WFx Star0) := Or.inr rfl
-
-/-- the member-listing reply: well-formed unless the list is empty, then exactly `*0` -/
-theorem rx_setArr (ms : List Bytes) : (Prog.ret (setArrReply ms)).AllRet (Res.WFx Star0) := by
+/-- the member-listing reply is well-formed for every member list, the empty one included -/
+theorem setArrReply_wf (ms : List Bytes) : Res.WFok (setArrReply ms) := by
   unfold setArrReply
-  split
-  · exact rx_star0
-  · exact rx_permMap _ 1 _ _ (fun x => grp_one _ (wf1_bulk _)) _ (Nat.mul_one _).symm
+  have := wfok_perm 1 (ms.map bulkStr) (by
+    intro g hg
+    rw [List.mem_map] at hg
+    obtain ⟨x, _, rfl⟩ := hg
+    exact grp_one _ (wf1_bulk _))
+  rw [List.length_map, Nat.mul_one] at this
+  exact this
 
-/-- for a non-empty list the member-listing reply is well-formed -/
-theorem setArrReply_wf (ms : List Bytes) (h : ms ≠ []) : Res.WFok (setArrReply ms) := by
-  unfold setArrReply
-  split
-  · rename_i he; simp at he; exact absurd he h
-  · have := rx_permMap NoExc 1 ms bulkStr (fun x => grp_one _ (wf1_bulk _)) _ (Nat.mul_one _).symm
-    exact this.elim id False.elim
+theorem rx_setArr (E : Res → Prop) (ms : List Bytes) : (Prog.ret (setArrReply ms)).AllRet (Res.WFx E) :=
+  rx_res _ _ (setArrReply_wf ms)
 
 theorem withSet_rx (E : Res → Prop) (cmd : List Bytes) (a : Bool) (r : Res) (m : Bytes → Bytes)
     (k : Bytes → List Bytes → Prog Res) (hr : Res.WFok r) (h : ∀ x y, (k x y).AllRet (Res.WFx E)) :
@@ -74,14 +68,13 @@ theorem writeBack_rx (P : Res → Prop) (l : List (Bytes × List Bytes × List B
     · exact ih
     · exact fun _ => ih
 
-/-- `wf` extended with the set-module combinators and the `Star0` leaves -/
+/-- `wf` extended with the set-module combinators and the member-listing leaf -/
 macro "wfs" : tactic => `(tactic| (
   repeat' (first
     | exact rx_err _ _
     | exact rx_panic _ _
     | exact rx_unmod _ _
-    | exact rx_star0
-    | exact rx_setArr _
+    | exact rx_setArr _ _
     | (refine rx_ok _ _ ?_; wfleaf)
     | (apply setOrErr_rx)
     | (apply collectSets_rx; intro _)
@@ -109,82 +102,49 @@ theorem handleSRem_wf (c : Ctx) (cmd : List Bytes) : (handleSRem c cmd).AllRet R
 theorem handleSMove_wf (c : Ctx) (cmd : List Bytes) : (handleSMove c cmd).AllRet Res.WFok := by
   apply allRet_full; unfold handleSMove; wfs
 
-/-- SMEMBERS: well-formed except the bare `*0` answered for a stored empty set -/
-theorem handleSMembers_wf_partial (c : Ctx) (cmd : List Bytes) : (handleSMembers c cmd).AllRet (Res.WFx Star0) := by
-  unfold handleSMembers
-  exact withSet_rx _ _ _ _ _ _ wf_emptyArr (fun _ _ => rx_setArr _)
+/-- SMEMBERS -/
+theorem handleSMembers_wf (c : Ctx) (cmd : List Bytes) : (handleSMembers c cmd).AllRet Res.WFok := by
+  apply allRet_full; unfold handleSMembers
+  exact withSet_rx _ _ _ _ _ _ wf_emptyArr (fun _ _ => rx_setArr _ _)
 
-/-- SRANDMEMBER: well-formed except the bare `*0` (count 0, or a stored empty set) -/
-theorem handleSRandMember_wf_partial (c : Ctx) (cmd : List Bytes) :
-    (handleSRandMember c cmd).AllRet (Res.WFx Star0) := by
-  unfold handleSRandMember; wfs
+/-- SRANDMEMBER: `*-1`, `*0\r\n`, the whole set in map order, or `count` random picks -/
+theorem handleSRandMember_wf (c : Ctx) (cmd : List Bytes) : (handleSRandMember c cmd).AllRet Res.WFok := by
+  apply allRet_full; unfold handleSRandMember; wfs
   all_goals exact rx_pickMap _ 1 _ _ _ _ (fun x => grp_one _ (wf1_bulk _)) _ (Nat.mul_one _).symm
 
-/-- SPOP: well-formed except the bare `*0` (count 0, or a stored empty set) -/
-theorem handleSPop_wf_partial (c : Ctx) (cmd : List Bytes) : (handleSPop c cmd).AllRet (Res.WFx Star0) := by
-  unfold handleSPop; wfs
+/-- SPOP -/
+theorem handleSPop_wf (c : Ctx) (cmd : List Bytes) : (handleSPop c cmd).AllRet Res.WFok := by
+  apply allRet_full; unfold handleSPop; wfs
 
-/-- SDIFF / SDIFFSTORE: well-formed except the bare `*0` of an empty difference -/
-theorem handleSDiff_wf_partial (st : Bool) (c : Ctx) (cmd : List Bytes) :
-    (handleSDiff st c cmd).AllRet (Res.WFx Star0) := by
-  unfold handleSDiff; wfs
-
-theorem handleSDiffStore_wf (c : Ctx) (cmd : List Bytes) : (handleSDiff true c cmd).AllRet Res.WFok := by
+/-- SDIFF / SDIFFSTORE -/
+theorem handleSDiff_wf (st : Bool) (c : Ctx) (cmd : List Bytes) : (handleSDiff st c cmd).AllRet Res.WFok := by
   apply allRet_full; unfold handleSDiff; wfs
-  all_goals exact absurd rfl ‹¬true = true›
 
 theorem sinterStore_wf (E : Res → Prop) (a d : Bytes) (s : List (Nat × List Bytes)) (r : List Bytes) :
     (sinterStore a d s r).AllRet (Res.WFx E) := by
   unfold sinterStore; wfs
 
-/-- what follows the SINTER operand loop: only mode 0 (SINTER proper) lists members -/
-theorem sinterTail_rx (m : Nat) (l : Int) (a d : Bytes) (s : List (Nat × List Bytes)) :
-    (sinterTail m l a d s).AllRet (Res.WFx Star0) := by
+/-- what follows the SINTER operand loop -/
+theorem sinterTail_wf (E : Res → Prop) (m : Nat) (l : Int) (a d : Bytes) (s : List (Nat × List Bytes)) :
+    (sinterTail m l a d s).AllRet (Res.WFx E) := by
   unfold sinterTail; wfs
   all_goals exact sinterStore_wf _ _ _ _ _
 
-theorem sinterTail_wf (m : Nat) (hm : (m == 0) = false) (l : Int) (a d : Bytes) (s : List (Nat × List Bytes)) :
-    (sinterTail m l a d s).AllRet (Res.WFx NoExc) := by
-  unfold sinterTail; wfs
-  all_goals first
-    | exact sinterStore_wf _ _ _ _ _
-    | (rename_i h; rw [hm] at h; cases h)
-
-/-- SINTER / SINTERCARD / SINTERSTORE: well-formed except SINTER's bare `*0` for an empty intersection -/
-theorem handleSInter_wf_partial (m : Nat) (c : Ctx) (cmd : List Bytes) :
-    (handleSInter m c cmd).AllRet (Res.WFx Star0) := by
-  unfold handleSInter; wfs
-  all_goals first
-    | (refine interLoop_rx _ _ _ ?_ _ (fun _ => sinterTail_rx _ _ _ _ _); first | exact wf_emptyArr | exact wf_int _)
-
-/-- SINTERCARD and SINTERSTORE never list members -/
-theorem handleSInter_wf (m : Nat) (hm : (m == 0) = false) (c : Ctx) (cmd : List Bytes) :
-    (handleSInter m c cmd).AllRet Res.WFok := by
+/-- SINTER / SINTERCARD / SINTERSTORE (mode 0 / 2 / 1) -/
+theorem handleSInter_wf (m : Nat) (c : Ctx) (cmd : List Bytes) : (handleSInter m c cmd).AllRet Res.WFok := by
   apply allRet_full; unfold handleSInter; wfs
   all_goals first
-    | (refine interLoop_rx _ _ _ ?_ _ (fun _ => sinterTail_wf _ hm _ _ _ _); first | exact wf_emptyArr | exact wf_int _)
+    | (refine interLoop_rx _ _ _ ?_ _ (fun _ => sinterTail_wf _ _ _ _ _ _); first | exact wf_emptyArr | exact wf_int _)
 
-theorem sunionTail_rx (st : Bool) (d : Bytes) (o : List (Bytes × Nat × List Bytes)) :
-    (sunionTail st d o).AllRet (Res.WFx Star0) := by
+theorem sunionTail_wf (E : Res → Prop) (st : Bool) (d : Bytes) (o : List (Bytes × Nat × List Bytes)) :
+    (sunionTail st d o).AllRet (Res.WFx E) := by
   unfold sunionTail; wfs
-
-theorem sunionTailStore_wf (d : Bytes) (o : List (Bytes × Nat × List Bytes)) :
-    (sunionTail true d o).AllRet (Res.WFx NoExc) := by
-  unfold sunionTail; wfs
-  all_goals exact absurd ‹(!true) = true› (by decide)
 
 attribute [local irreducible] sunionTail
 
-/-- SUNION / SUNIONSTORE: well-formed except SUNION's bare `*0` for an empty union -/
-theorem handleSUnion_wf_partial (st : Bool) (c : Ctx) (cmd : List Bytes) :
-    (handleSUnion st c cmd).AllRet (Res.WFx Star0) := by
-  unfold handleSUnion; wfs
-  all_goals exact sunionTail_rx _ _ _
-
-theorem handleSUnionStore_wf (c : Ctx) (cmd : List Bytes) : (handleSUnion true c cmd).AllRet Res.WFok := by
-  apply allRet_full; unfold handleSUnion
-  simp only [↓reduceIte]
-  wfs
-  all_goals exact sunionTailStore_wf _ _
+/-- SUNION / SUNIONSTORE -/
+theorem handleSUnion_wf (st : Bool) (c : Ctx) (cmd : List Bytes) : (handleSUnion st c cmd).AllRet Res.WFok := by
+  apply allRet_full; unfold handleSUnion; wfs
+  all_goals exact sunionTail_wf _ _ _ _
 
 end Sugar
